@@ -161,6 +161,34 @@ def do(op, a):
             return ['compile-error', exn_name(e)]
         m = rx.search(a[1])
         return ['ok', [] if m is None else [pairs(m.groupdict())]]
+    if op == 'unfold':
+        from spil.sid.read.tools import unfold_search
+        return out(lambda: [t_sid(x) for x in unfold_search(a[0], do_uniquify=(a[1] == '1'), do_extrapolate=(a[2] == '1'))])
+    if op == 'extensions':
+        from spil.sid.read.unfolders.extensions import extensions
+        return out(lambda: extensions(a[0]))
+    if op == 'or_op':
+        from spil.sid.read.unfolders.or_op import or_op
+        return out(lambda: sorted(or_op(a[0])))
+    if op == 'expand':
+        from spil.sid.core.utils import expand
+        return out(lambda: [t_sid(x) for x in sorted(expand(a[0]), key=lambda x: (x.string, x.type))])
+    if op in ('find_list', 'find_list_sids', 'find_one', 'exists'):
+        from spil import FindInList
+        fl = FindInList(list(a[0]))
+        if op == 'find_list':
+            return out(lambda: list(fl.find(a[1], as_sid=False)))
+        if op == 'find_list_sids':
+            return out(lambda: [t_sid(x) for x in fl.find(a[1], as_sid=True)])
+        if op == 'find_one':
+            return out(lambda: t_opt(fl.find_one(a[1], as_sid=False)))
+        return out(lambda: t_bool(fl.exists(a[1])))
+    if op == 'match':
+        return with_sid(a[0], lambda x: out(lambda: t_bool(x.match(a[1]))))
+    if op == 'glob_match':
+        import re as _re
+        from spil.sid.read.finders.find_list import glob2re
+        return out(lambda: t_bool(_re.match(glob2re(a[0]), a[1]) is not None))
     if op == 'dump':
         from spil.sid.pathops.pathconfig import get_path_config
         for name in conf.path_configs.keys():
